@@ -98,7 +98,8 @@ func loadConfig(path string) (*HarnessConfig, error) {
 	if err := json.Unmarshal(b, &c); err != nil {
 		return nil, fmt.Errorf("%s: %v", path, err)
 	}
-	c.dir = filepath.Dir(path)
+	abs, _ := filepath.Abs(path)
+	c.dir = filepath.Dir(abs)
 	if c.SolverTimeoutMs == 0 {
 		c.SolverTimeoutMs = 20000
 	}
